@@ -181,14 +181,30 @@ def build_cabextract():
 
 ASAN_ENV = dict(os.environ, ASAN_OPTIONS="detect_leaks=0:abort_on_error=0:exitcode=86:allocator_may_return_null=1", UBSAN_OPTIONS="print_stacktrace=1:halt_on_error=1:exitcode=87", MSAN_OPTIONS="exitcode=88")
 
-def run_lines(exe, args, lines, timeout=600):
-    """feed lines to a unit engine, return (rc, list of output lines, raw)"""
+def _run_lines1(exe, args, lines, timeout):
     inp = ("\n".join(lines) + "\n").encode()
     try:
         p = subprocess.run([exe] + args, input=inp, capture_output=True, timeout=timeout, env=ASAN_ENV)
         return p.returncode, p.stdout.decode("utf-8", "replace").split("\n")[:-1], p.stderr.decode("utf-8", "replace")
     except subprocess.TimeoutExpired as e:
         return 124, (e.stdout or b"").decode("utf-8", "replace").split("\n"), "[timeout]"
+
+def run_lines(exe, args, lines, timeout=600):
+    """feed lines to a unit engine (one output line per input line), return (rc, list of output lines, raw stderr).
+    The model driver is pure and line-by-line, so large batches for it are split over processes (the order of results is kept).
+    A shard that fails makes the whole call fall back to one process, so crash positions are reported as before."""
+    if len(lines) >= 24 and os.path.basename(exe) == "model_drv":
+        import concurrent.futures
+        k = min(16, os.cpu_count() or 4, len(lines) // 6)
+        shards = [lines[i::k] for i in range(k)]
+        with concurrent.futures.ThreadPoolExecutor(k) as ex:
+            rs = list(ex.map(lambda sh: _run_lines1(exe, args, sh, timeout), shards))
+        if all(r[0] == 0 and len(r[1]) == len(sh) for r, sh in zip(rs, shards)):
+            out = [None] * len(lines)
+            for j, (r, sh) in enumerate(zip(rs, shards)):
+                for i, l in enumerate(r[1]): out[j + i * k] = l
+            return 0, out, "".join(r[2] for r in rs)
+    return _run_lines1(exe, args, lines, timeout)
 
 def hexs(b): return bytes(b).hex() if len(b) else "-"
 
